@@ -2,7 +2,7 @@
     Statements only; proofs in Proofs/InterpLaws.v and Proofs/InterpInv.v. *)
 From Coq Require Import List ZArith NArith Bool.
 From RRSS Require Import Base.Outcome Base.Chars Base.F64 Exec.Val Exec.Ops Front.Ast Exec.Env Exec.Interp.
-From RRSS Require Import Proofs.InterpInv Proofs.InterpLaws Proofs.ArrayLaws.
+From RRSS Require Import Proofs.InterpInv Proofs.InterpLaws Proofs.ArrayLaws Proofs.InterpPure.
 Import ListNotations.
 
 (** the call protocol: look the function up, check the arity, evaluate the arguments, bind them in
@@ -114,5 +114,19 @@ Theorem C05_unknown_name_error :
   exists e', produce_primary prof (S f) (PIdent (IVar n) r) e = XErr (REnv (SymTableError (NameNotFound n))) e'.
 Proof. exact unknown_name_error. Qed.
 
+(** a statement that calls nothing writes only the variables it names as targets (plain or through
+    subscripts): every other variable — of this scope or an enclosing one — reads as before, also when
+    the statement fails *)
+Theorem C05_assignment_frame :
+  forall prof f s xs e xs' e' n,
+  frame_ok n s = true -> exec_stmt prof f s xs e = XOk xs' e' -> find_var n (scopes e') = find_var n (scopes e).
+Proof. exact assignment_frame. Qed.
+
+Theorem C05_assignment_frame_on_error :
+  forall prof f s xs e err e' n,
+  frame_ok n s = true -> exec_stmt prof f s xs e = XErr err e' -> find_var n (scopes e') = find_var n (scopes e).
+Proof. exact assignment_frame_err. Qed.
+
 Print Assumptions C05_scopes_restored_stmt.
 Print Assumptions C05_body_locals_do_not_leak.
+Print Assumptions C05_assignment_frame.
